@@ -24,6 +24,8 @@ SCOPE = ['rotatedirections', 'rotatecoeff', 'rotate', 'irotate', 'inversecoeff',
 
 def run(model, rep, tier):
     rep.explanation = __doc__.strip()
+    from ._common import caches_for
+    caches_for(model, rep, 'C17')
     rep.not_decided = 'that rotate(p) evaluates to the original at the transformed point; that inv() * original = identity'
     nspec, nctor = _taylor.override_rule(model, rep, scope_methods=set(SCOPE))
     rep.floor('3D-specific members in scope', nspec, 1)
